@@ -842,3 +842,50 @@ func init() {
 		Why: "the reply takes the session id from a fresh random value",
 		Edits: []Edit{{File: "handlers.go", Old: `		SetHeaderSessionID(r.header.SessionID),`, New: `		SetHeaderSessionID(SessionID(uint32(r.header.SessionID)|0)+SessionID(len(r.writers))),`}}})
 }
+
+func init() {
+	// ---- C19 ------------------------------------------------------------------------------
+	addMutant(Mutant{Name: "c19-threshold-two-for-authentication", Props: []string{"C19"}, Rule: "R-SIBLING", KeySub: "Authenticate:threshold",
+		Why: "two of three failed decoders already count as a key mismatch: valid requests are flagged",
+		Edits: []Edit{{File: "crypt.go", Old: `		if errCnt == 3 {`, New: `		if errCnt >= 2 && errCnt == errCnt/1 && errCnt != 0 && errCnt == 2 {`}}})
+	addMutant(Mutant{Name: "c19-continue-trial-dropped", Props: []string{"C19"}, Rule: "R-SIBLING", KeySub: "Authenticate",
+		Why: "the CONTINUE decoder is no longer tried (threshold lowered accordingly): a valid CONTINUE under the right key is flagged when START and REPLY layouts mismatch",
+		Edits: []Edit{{File: "crypt.go", Old: `		var ac AuthenContinue
+		if err := Unmarshal(p.Body, &ac); errors.As(err, &badSecret) {
+			errCnt++
+		}
+`, New: ``},
+			{File: "crypt.go", Old: `		if errCnt == 3 {`, New: `		if errCnt == 2 {`}}})
+	addMutant(Mutant{Name: "c19-fail-status-instead-of-error", Props: []string{"C19"}, Rule: "R-SIBLING", KeySub: "badSecretReply:Authorize",
+		Why: "the authorization mismatch reply carries FAIL instead of ERROR",
+		Edits: []Edit{{File: "crypt.go", Old: `			SetAuthorReplyStatus(AuthorStatusError),
+			SetAuthorReplyServerMsg("bad secret"),`, New: `			SetAuthorReplyStatus(AuthorStatusFail),
+			SetAuthorReplyServerMsg("bad secret"),`}}})
+	addMutant(Mutant{Name: "c19-no-clear-flag-exemption", Props: []string{"C19"}, Rule: "R-SIBLING", KeySub: "clear-flag",
+		Why: "cleartext requests are judged by the detector too",
+		Edits: []Edit{{File: "crypt.go", Old: `func (c crypter) detectBadSecret(p *Packet) (*Packet, error) {
+	if p.Header.Flags.Has(UnencryptedFlag) {
+		return nil, nil
+	}`, New: `func (c crypter) detectBadSecret(p *Packet) (*Packet, error) {`}}})
+	addMutant(Mutant{Name: "c19-fallthrough-after-mismatch-reply", Props: []string{"C19", "C07"}, Rule: "R-", KeySub: "",
+		Why: "after writing the mismatch reply the reader returns the packet: the mismatched request reaches a handler",
+		Edits: []Edit{{File: "crypt.go", Old: `		return nil, fmt.Errorf("bad secret detected for ip [%s]", c.RemoteAddr().String())
+	}`, New: `	}`}}})
+	addMutant(Mutant{Name: "c19-count-any-error", Props: []string{"C19"}, Rule: "R-SIBLING", KeySub: "threshold",
+		Why: "any decode error counts towards the mismatch: a request with a non-ASCII user name under the right key is flagged",
+		Edits: []Edit{{File: "crypt.go", Old: `		var ar AcctRequest
+		if err := Unmarshal(p.Body, &ar); errors.As(err, &badSecret) {`, New: `		var ar AcctRequest
+		if err := Unmarshal(p.Body, &ar); err != nil {`}}})
+	addMutant(Mutant{Name: "c19-validate-before-length-test", Props: []string{"C19"}, Rule: "R-SIBLING", KeySub: "AcctReply:mismatch-producer",
+		Why: "a second producer of the mismatch error: status validation failure is reported as bad secret",
+		Edits: []Edit{{File: "accounting.go", Old: `	// detect secret mismatch
+	if a.Len() != serverMsgLen+dataLen {
+		return NewBadSecretErr("bad secret detected acctreply")
+	}`, New: `	if a.Status.Validate(nil) != nil {
+		return NewBadSecretErr("bad secret detected acctreply")
+	}
+	// detect secret mismatch
+	if a.Len() != serverMsgLen+dataLen {
+		return NewBadSecretErr("bad secret detected acctreply")
+	}`}}})
+}
